@@ -287,8 +287,16 @@ def part_tails(ctx):
     ctx.domain("cuts of a trailing packet x n in {0,3,11}", cnt)
 
 
-PARTS = {"all_n": part_all_n, "tails": part_tails}
-REPLAY = {"all_n": check_case, "tails": check_case}
+def part_big(ctx):
+    """one file beyond the framer's 20 MB buffer-trim threshold: 330 packets of the largest size"""
+    pkts = [{"v": 0, "t": i % 2, "sh": 0, "apid": (7 * i) % 2048, "sf": 3, "sc": i, "mark": 3_000_000_000 + 104729 * i,
+             "extra": [], "pad": 65532} for i in range(330)]
+    check_case(ctx, {"packets": pkts, "extra": [], "indices": [0, 5, 305, 306, 307, 329, 330, 331], "gopts": []})
+    ctx.domain("file of 330 packets x 65536 data bytes (21.6 MB)", 1)
+
+
+PARTS = {"all_n": part_all_n, "tails": part_tails, "big": part_big}
+REPLAY = {"all_n": check_case, "tails": check_case, "big": lambda ctx, case: part_big(ctx)}
 KNOWN = {}
 
 
@@ -299,6 +307,7 @@ def plan(tier, seed):
         tasks.append(("all_n", {"sets": sets, "ns": [n]}))
     tasks.append(("all_n", {"sets": 2 if tier == "quick" else 40, "ns": [0, 1, 9, 10, 11, 14], "with_tail": True}))
     tasks.append(("tails", {}))
+    tasks.append(("big", {}))
     if tier != "quick":
         for n in (15, 20, 21, 22, 37, 100):    # around the default --max-items (20) and well beyond the elision threshold
             tasks.append(("all_n", {"sets": 40, "ns": [n]}))
